@@ -26,6 +26,4 @@ pub open spec fn payload_bytes(r: BinaryResponse) -> Seq<u8> {
         _ => Seq::empty(),
     }
 }
-// UTF-8 bytes of a String (uninterpreted: only its length is ever related to anything, and only by assumption)
-pub uninterp spec fn string_bytes(s: String) -> Seq<u8>;
 pub open spec fn wire_bytes(r: BinaryResponse) -> Seq<u8> { hdr_bytes(resp_header(r)) + payload_bytes(r) }
